@@ -429,7 +429,9 @@ def link(state, address: int) -> bytes:
 MAX_INCLUDE_DEPTH = 30
 
 
-@metacommand(size=0)
+# The size is not declared: it is the size of the included code, which is only
+# known once the file name is (the name may mention a symbol defined later)
+@metacommand
 def include(state, included_file_path: str):
     include_path = devices.resolve_relative_path(included_file_path, state["filename"])
 
